@@ -24,6 +24,51 @@ r_into_oper = make_r_sub("R-into", r"&\(\*op\)\.into\(\)", "&Oper::from_bin(*op)
 r_vis = make_r_sub("R-vis", r"pub\(crate\) ", "pub ", min_count=0)
 
 
+ENGINE_UNPARSE = r"""
+// ---- the theorem instantiated with each engine's precedence table ------------------------------------------------------------------------
+// abstract trees over the crate's BinOper: every expression that is neither a binary operation nor NOT is an atom (written as one
+// self-delimiting group, or inside parentheses)
+pub open spec fn ut_prec(e: Engine, op: BinOper) -> int { match prec_bin(e, op) { Some(p) => p, None => 0 } }   // operators outside the table (custom): operands always parenthesised
+// what the contracts of binary_expr / prepare_between_bound / the NOT arm guarantee about an operand written WITHOUT parentheses
+// (safe_bare / safe_bare_left of this unit, on abstract trees)
+pub open spec fn ut_safe(e: Engine, c: UT<BinOper>, outer: Oper) -> bool {
+    match c { UT::Atom(_) => true, UT::Bin(iop, _, _) => prec_bin(e, iop) is Some && prec(e, outer) is Some && prec_bin(e, iop)->Some_0 > prec(e, outer)->Some_0, UT::Not(_) => false }
+}
+pub open spec fn ut_safe_left(e: Engine, c: UT<BinOper>, op: BinOper) -> bool {
+    ut_safe(e, c, Oper::BinOper(op)) || (c matches UT::Bin(iop, _, _) && iop == op && left_assoc(e, op))
+}
+pub open spec fn engine_table(e: Engine, dl: spec_fn(UT<BinOper>, BinOper) -> bool, dr: spec_fn(UT<BinOper>, BinOper) -> bool, dn: spec_fn(UT<BinOper>) -> bool) -> UpTable<BinOper> {
+    UpTable { prec: |op: BinOper| ut_prec(e, op), prec_not: prec_not(e), dl: dl, dr: dr, dn: dn }
+}
+// C05, the global statement: ANY parenthesis decisions that respect the local conditions proved for binary_expr and the NOT arm
+// re-parse, under engine e's table, to the tree that was built
+pub proof fn theorem_unparse_engine(e: Engine, dl: spec_fn(UT<BinOper>, BinOper) -> bool, dr: spec_fn(UT<BinOper>, BinOper) -> bool, dn: spec_fn(UT<BinOper>) -> bool, t: UT<BinOper>)
+    requires
+        forall|c: UT<BinOper>, op: BinOper| #[trigger] dl(c, op) ==> ut_safe_left(e, c, op),
+        forall|c: UT<BinOper>, op: BinOper| #[trigger] dr(c, op) ==> ut_safe(e, c, Oper::BinOper(op)),
+        forall|c: UT<BinOper>| #[trigger] dn(c) ==> ut_safe(e, c, Oper::UnOper(UnOper::Not)),
+    ensures ({ let tb = engine_table(e, dl, dr, dn); up_parse_e(tb, up_print(tb, t), 0, UP_MIN) == Some((t, up_print(tb, t).len() as int)) })
+{
+    reveal(prec_bin);
+    let tb = engine_table(e, dl, dr, dn);
+    assert(up_printer_ok(tb)) by {
+        assert forall|op: BinOper| #[trigger] (tb.prec)(op) > UP_MIN by { }
+        assert forall|c: UT<BinOper>, op: BinOper| #[trigger] (tb.dl)(c, op) implies up_safe_l(tb, c, op) by { }
+        assert forall|c: UT<BinOper>, op: BinOper| #[trigger] (tb.dr)(c, op) implies up_safe_r(tb, c, op) by { }
+        assert forall|c: UT<BinOper>| #[trigger] (tb.dn)(c) implies up_safe_n(tb, c) by { }
+    }
+    theorem_unparse(tb, t);
+}
+// .. in particular the MOST permissive printer the contracts allow (every omission they permit is taken): no precondition left
+pub proof fn corollary_unparse_most_permissive(e: Engine, t: UT<BinOper>)
+    ensures ({ let tb = engine_table(e, |c: UT<BinOper>, op: BinOper| ut_safe_left(e, c, op), |c: UT<BinOper>, op: BinOper| ut_safe(e, c, Oper::BinOper(op)), |c: UT<BinOper>| ut_safe(e, c, Oper::UnOper(UnOper::Not)));
+               up_parse_e(tb, up_print(tb, t), 0, UP_MIN) == Some((t, up_print(tb, t).len() as int)) })
+{
+    theorem_unparse_engine(e, |c: UT<BinOper>, op: BinOper| ut_safe_left(e, c, op), |c: UT<BinOper>, op: BinOper| ut_safe(e, c, Oper::BinOper(op)), |c: UT<BinOper>| ut_safe(e, c, Oper::UnOper(UnOper::Not)), t);
+}
+"""
+
+
 def build(u, variant=None):
     mp = variant == "more-parentheses"
     if mp:
@@ -44,6 +89,8 @@ def build(u, variant=None):
     u.type_item("src/query/case.rs", "struct", "CaseStatement", props=P, rules=[r_vis])
     u.type_item(M, "enum", "Oper", props=P)
     u.prelude_file("units/prec/spec.rs", props=P)
+    u.prelude_file("units/prec/unparse.rs", props=P)
+    u.spec(ENGINE_UNPARSE, "prec::unparsing-theorem(engines)", props=P)
 
     # ---- Oper classes -------------------------------------------------------------------------------------------------------
     u.emit("impl Oper {\n")
